@@ -692,6 +692,10 @@ class EvolutionSuperOperator(SuperOperator, TimeDependent, Saveable):
                 
                 self.now += 1
 
+        if self.ham.has_rwa:
+            # evolution is calculated in RWA (as in the mode "all")
+            self.is_in_rwa = True
+
 
     def at(self, time=None):
         """Retruns evolution superoperator tensor at a given time
